@@ -23,7 +23,111 @@ type helloEdit struct {
 }
 
 func genEdit(rg *rand.Rand, u *tls.UConn) *helloEdit {
-	switch rg.Intn(8) {
+	switch rg.Intn(12) {
+	case 8: // direct edit of the server_name extension object (in place, or replaced by a new one)
+		name := []string{"direct.example.test", "edited.test", "d.e.f.example.test"}[rg.Intn(3)]
+		replace := rg.Intn(2) == 0
+		changed := false
+		return &helloEdit{"Extensions[SNI].ServerName", func(u *tls.UConn) error {
+			for i, e := range u.Extensions {
+				if sn, ok := e.(*tls.SNIExtension); ok {
+					if replace {
+						u.Extensions[i] = &tls.SNIExtension{ServerName: name}
+					} else {
+						sn.ServerName = name
+					}
+					changed = true
+				}
+			}
+			return nil
+		}, func(ch *wire.ClientHello) string {
+			if changed && (ch.SNI == nil || *ch.SNI != name) {
+				return fmt.Sprintf("SNI on the wire is %v, the SNIExtension in Extensions was edited to %q", ch.SNI, name)
+			}
+			return ""
+		}}
+	case 9: // drop the last signature algorithm
+		var want []uint16
+		changed := false
+		return &helloEdit{"Extensions[signature_algorithms]", func(u *tls.UConn) error {
+			for _, e := range u.Extensions {
+				if sa, ok := e.(*tls.SignatureAlgorithmsExtension); ok && len(sa.SupportedSignatureAlgorithms) > 3 {
+					sa.SupportedSignatureAlgorithms = sa.SupportedSignatureAlgorithms[:len(sa.SupportedSignatureAlgorithms)-1]
+					want = nil
+					for _, x := range sa.SupportedSignatureAlgorithms {
+						want = append(want, uint16(x))
+					}
+					changed = true
+				}
+			}
+			return nil
+		}, func(ch *wire.ClientHello) string {
+			if changed && fmt.Sprint(ch.SigAlgs) != fmt.Sprint(want) {
+				return fmt.Sprintf("signature_algorithms on the wire %04x, edited to %04x", ch.SigAlgs, want)
+			}
+			return ""
+		}}
+	case 10: // append a group to supported_groups
+		var want []uint16
+		changed := false
+		return &helloEdit{"Extensions[supported_groups]", func(u *tls.UConn) error {
+			for _, e := range u.Extensions {
+				if sc, ok := e.(*tls.SupportedCurvesExtension); ok {
+					has := false
+					for _, c := range sc.Curves {
+						if c == tls.CurveP521 {
+							has = true
+						}
+					}
+					if has {
+						continue
+					}
+					sc.Curves = append(append([]tls.CurveID(nil), sc.Curves...), tls.CurveP521)
+					changed = true
+				}
+			}
+			return nil
+		}, func(ch *wire.ClientHello) string {
+			_ = want
+			if !changed {
+				return ""
+			}
+			if len(ch.Groups) == 0 || ch.Groups[len(ch.Groups)-1] != uint16(tls.CurveP521) {
+				return fmt.Sprintf("supported_groups on the wire %04x: the appended P-521 is missing", ch.Groups)
+			}
+			return ""
+		}}
+	case 11: // change the list of compress_certificate algorithms / psk modes / record size limit
+		changed := ""
+		return &helloEdit{"Extensions[misc field]", func(u *tls.UConn) error {
+			for _, e := range u.Extensions {
+				switch x := e.(type) {
+				case *tls.UtlsCompressCertExtension:
+					if changed == "" {
+						x.Algorithms = []tls.CertCompressionAlgo{tls.CertCompressionZlib, tls.CertCompressionBrotli}
+						changed = "cc"
+					}
+				case *tls.FakeRecordSizeLimitExtension:
+					if changed == "" {
+						x.Limit = 0x3fff
+						changed = "rsl"
+					}
+				}
+			}
+			return nil
+		}, func(ch *wire.ClientHello) string {
+			switch changed {
+			case "cc":
+				if fmt.Sprint(ch.CertCompAlgs) != fmt.Sprint([]uint16{1, 2}) {
+					return fmt.Sprintf("compress_certificate on the wire %v, edited to [1 2]", ch.CertCompAlgs)
+				}
+			case "rsl":
+				if ch.RecordLimit != 0x3fff {
+					return fmt.Sprintf("record_size_limit on the wire %d, edited to 16383", ch.RecordLimit)
+				}
+			}
+			return ""
+		}}
 	case 0:
 		rnd := randBytes(rg, 32)
 		return &helloEdit{"SetClientRandom", func(u *tls.UConn) error { return u.SetClientRandom(rnd) }, func(ch *wire.ClientHello) string {
@@ -260,8 +364,18 @@ func TestC01(t *testing.T) {
 			if err := u.BuildHandshakeState(); err != nil {
 				return err
 			}
+			usedClass := map[string]bool{}
 			for e := 0; e < nEdits; e++ {
 				ed := genEdit(rg, u)
+				// two edits of the same field in one sequence would hide each other: one per class
+				class := strings.SplitN(strings.SplitN(ed.name, "(", 2)[0], "+=", 2)[0]
+				if class == "SetSNI" || class == "Extensions[SNI].ServerName" {
+					class = "sni"
+				}
+				if class != "Extensions" && usedClass[class] {
+					continue
+				}
+				usedClass[class] = true
 				if err := ed.apply(u); err != nil {
 					return fmt.Errorf("%s: %w", ed.name, err)
 				}
